@@ -7,10 +7,13 @@ ROOT = os.path.dirname(os.path.dirname(os.path.abspath(__file__)))
 ids = [json.loads(l)["id"] for l in open(os.path.join(ROOT, "properties.jsonl"))]
 na_path = os.path.join(ROOT, "props", "not_applicable.json")
 na_reasons = json.load(open(na_path)) if os.path.exists(na_path) else {}
+# only properties listed in props/ready.txt (reviewed and passing) are claimed
+ready_path = os.path.join(ROOT, "props", "ready.txt")
+ready = set(open(ready_path).read().split()) if os.path.exists(ready_path) else set()
 checks, na, engines = [], [], {}
 for pid in ids:
     p = os.path.join(ROOT, "props", pid + ".json")
-    if os.path.exists(p) and json.load(open(p)).get("claimed", False):
+    if pid in ready and os.path.exists(p) and json.load(open(p)).get("claimed", False):
         c = json.load(open(p))
         checks.append({
             "property_id": pid,
